@@ -68,7 +68,9 @@ for _k in ("llist", "slist", "ht", "buf"):
 
 
 def gen(rng, tier, n):
-    maxops = 120 if tier == "quick" else 600
+    # thorough: longer sequences, but the per-op full dumps make the output quadratic in the
+    # length; 300 keeps a thorough run (10 k cases) under ~15 min and ~300 MB of driver output
+    maxops = 120 if tier == "quick" else 300
     kinds = sorted(KINDS)
     out = []
     for i in range(n):
